@@ -22,7 +22,11 @@
            (1 + dd) U_(r,c) + Sum_t (a_t + dL_t) Uc(j_t, c) = D0(fperm r, c)     c = r .. r+mm-1 ,  |dd|, |dL_t|/|a_t| <= gam c_r
            Sum_(t' <= t) (a_t' + dL_t') Uc(j_t', j_t) = D0(fperm r, j_t)         for every stage j_t of the history, gam (t+1)
        i.e.  L U = P B + dB ,  |dB| <= gam(c_r) |L||U|  in rows.  Hypothesis: the computed pivots are nonzero.
-   The constants of the triangular phases refer to the COMPUTED factors au, al, index. *)
+     band_solve_backward_error_lemma :  band_solve B b = Ok x  ->  with the factors (au, al, index) decompose computed:
+       (U + dU) x = y ,  (L + dL) y = P b ,  L U = P B + dB  (B = the dense twin of the banded matrix), all row-wise, as above,
+       provided the computed pivots are nonzero (division by a zero pivot does not panic in the rounded reals).
+   The constants of the triangular phases refer to the COMPUTED factors au, al, index; |L||U| is not compared with |B|
+   (no growth-factor bound), and the three statements are not multiplied out into one (B + dB) x = b. *)
 From Coq Require Import List Arith Lia Reals Lra Psatz Bool.
 From OV Require Import Base.Panic Base.Arith Base.RoundModel Model.Vector Model.Matrix Model.Banded
   Proofs.Matrix Proofs.Banded Proofs.BandedLU Proofs.RoundDot Proofs.RoundMatvec Proofs.Round2Band.
@@ -444,3 +448,91 @@ Proof using u_range fsub_ok fmul_ok fdiv_ok.
 Qed.
 
 End RoundBandLU.
+
+(* ================================================================ band_solve as a whole: the three statements for the
+   factors the solver computed itself *)
+Section RoundBandSolve.
+Variable u : R.
+Hypothesis u_range : 0 <= u < 1.
+Variables fadd fsub fmul fdiv : R -> R -> R.
+Hypothesis fsub_ok : forall x y, exists d, Rabs d <= u /\ fsub x y = (x - y) * (1 + d).
+Hypothesis fmul_ok : forall x y, exists d, Rabs d <= u /\ fmul x y = x * y * (1 + d).
+Hypothesis fdiv_ok : forall x y, y <> 0 -> exists d, Rabs d <= u /\ fdiv x y = x / y * (1 + d).
+
+Notation AR := (ARm fadd fsub fmul fdiv).
+Notation gam := (gam u).
+Notation Uc := (Uc fadd fsub fmul fdiv).
+
+Theorem band_solve_backward_error_lemma (B : banded AR) (b x : list R) :
+  wfB B -> length b = bn B -> (bm1 B <= bn B)%nat -> band_solve B b = Ok x ->
+  exists (au al : matrix AR) (index : list nat) (y : list R),
+    (exists d : R, decompose_gen (A := AR) false B (compact B) (mat_new (A := AR) (bn B) (bm1 B) 0) (repeat 0%nat (bn B))
+                 = Ok (au, al, index, d)) /\
+    length y = bn B /\ length x = bn B /\
+    (forall k, (k < bn B)%nat -> (k + 1 <= nth k index 0%nat <= Nat.min (k + 1 + bm1 B) (bn B))%nat) /\
+    ((forall k, (k < bn B)%nat -> mat_at (A := AR) au (bm1 B + bm2 B + 1) k 0 <> 0) ->
+     (INR (bm1 B + bm2 B + 1) * u < 1 ->
+      exists dU : nat -> nat -> R,
+        (forall i k, (i < bn B)%nat -> (k < bwin (bm1 B + bm2 B + 1) (bn B) i)%nat ->
+           Rabs (dU i k) <= gam (bwin (bm1 B + bm2 B + 1) (bn B) i) * Rabs (mat_at (A := AR) au (bm1 B + bm2 B + 1) i k)) /\
+        forall i, (i < bn B)%nat ->
+          Rsum (bwin (bm1 B + bm2 B + 1) (bn B) i)
+            (fun k => (mat_at (A := AR) au (bm1 B + bm2 B + 1) i k + dU i k) * nth (i + k) x 0) = nth i y 0) /\
+     forall r, (r < bn B)%nat ->
+       let h : list (R * nat) := fhist (A := AR) (bn B) (bm1 B) al index (bn B) r in
+       (length h <= r)%nat /\
+       (forall t, (t < length h)%nat -> (snd (nth t h (0%R, 0%nat)) < r)%nat) /\
+       (INR (length h) * u < 1 ->
+        (exists (dd : R) (dL : nat -> R),
+           Rabs dd <= gam (length h) /\
+           (forall t, (t < length h)%nat -> Rabs (dL t) <= gam (length h) * Rabs (fst (nth t h (0, 0%nat)))) /\
+           (1 + dd) * nth r y 0
+           + Rsum (length h) (fun t => (fst (nth t h (0, 0%nat)) + dL t) * nth (snd (nth t h (0, 0%nat))) y 0)
+           = nth (fperm index (bn B) r) b 0) /\
+        (forall s, (s < bm1 B + bm2 B + 1)%nat ->
+           exists (dd : R) (dL : nat -> R),
+             Rabs dd <= gam (length h) /\
+             (forall t, (t < length h)%nat -> Rabs (dL t) <= gam (length h) * Rabs (fst (nth t h (0, 0%nat)))) /\
+             (1 + dd) * mat_at (A := AR) au (bm1 B + bm2 B + 1) r s
+             + Rsum (length h) (fun t => (fst (nth t h (0, 0%nat)) + dL t)
+                                         * Uc au (bm1 B + bm2 B + 1) (snd (nth t h (0, 0%nat))) (r + s))
+             = dense_entry B (fperm index (bn B) r) (r + s)) /\
+        (forall t, (t < length h)%nat ->
+           exists dL : nat -> R,
+             (forall t', (t' <= t)%nat -> Rabs (dL t') <= gam (t + 1) * Rabs (fst (nth t' h (0, 0%nat)))) /\
+             Rsum (S t) (fun t' => (fst (nth t' h (0, 0%nat)) + dL t')
+                                   * Uc au (bm1 B + bm2 B + 1) (snd (nth t' h (0, 0%nat))) (snd (nth t h (0%R, 0%nat))))
+             = dense_entry B (fperm index (bn B) r) (snd (nth t h (0%R, 0%nat)))))).
+Proof using u_range fsub_ok fmul_ok fdiv_ok.
+  intros Hwf Hb Hm1 E.
+  destruct (band_solve_phases_lemma (A := AR) B b x (Req_zero_eqb fadd fsub fmul fdiv) Hwf Hb Hm1 E)
+    as (au0 & au & al & index & d & y & l1 & l2 & l3 & Es & El & Ef & Eb & Hc0 & Hc & Hcl & Ly & Hix & HD).
+  set (n := bn B) in *. set (m1 := bm1 B) in *. set (mm := (bm1 B + bm2 B + 1)%nat) in *.
+  assert (Hmm : (1 <= mm)%nat) by (unfold mm; lia).
+  exists au, al, index, y. split.
+  { exists d. unfold decompose_gen. fold m1 mm n. change (@zero AR) with 0 in Es, El.
+    rewrite Es. cbn [bind]. change (@one AR) with 1 in El. change (@zero AR) with 0. change (@one AR) with 1.
+    rewrite El. reflexivity. }
+  split; [exact Ly|].
+  assert (Hix' : forall k, (k < n)%nat -> (k + 1 <= nth k index 0%nat)%nat) by (intros k Hk; apply Hix; exact Hk).
+  destruct (band_back_trace_lemma (A := AR) au mm n y x l3 Hc Hmm Ly Eb) as (Lx & _).
+  split; [exact Lx|]. split; [exact Hix|].
+  intros Hpiv. split.
+  - intros Hu.
+    exact (proj2 (band_backsolve_backward_error_lemma u u_range fadd fsub fmul fdiv fsub_ok fmul_ok fdiv_ok
+                    au mm n y x l3 Hc Hmm Ly Hu Hpiv Eb)).
+  - intros r Hr.
+    destruct (band_forward_backward_error_lemma u u_range fadd fsub fmul fdiv fsub_ok fmul_ok
+                al index n m1 b y l2 Hcl Hm1 Hb Hix' Ef) as (_ & HF).
+    destruct (HF r Hr) as (HF1 & HF2 & HF3). cbn zeta in HF1, HF2, HF3. cbn zeta.
+    split; [exact HF1|]. split; [exact HF2|]. intros Hu. split; [exact (HF3 Hu)|].
+    pose proof (band_lu_backward_error_lemma u u_range fadd fsub fmul fdiv fsub_ok fmul_ok fdiv_ok
+                  n mm m1 au0 (mat_new (A := AR) n m1 0) (repeat 0%nat n) 1 au al index d l1 Hc0 eq_refl Hmm Hm1 El Hpiv r Hr Hu)
+      as (HU & HL).
+    split.
+    + intros s Hs. destruct (HU s Hs) as (dd & dL & H1 & H2 & H3). exists dd, dL.
+      split; [exact H1|]. split; [exact H2|]. rewrite <- HD. exact H3.
+    + intros t Ht. destruct (HL t Ht) as (dL & H1 & H2). exists dL. split; [exact H1|]. rewrite <- HD. exact H2.
+Qed.
+
+End RoundBandSolve.
